@@ -33,7 +33,11 @@ pub fn gen(o: &Opts, sink: &mut dyn FnMut(Vec<i64>, String)) {
         let mut used: Vec<i64> = vec![];
         for _ in 0..nd {
             let key = *rng.pick(&[0i64, 0, 1, 2, 3, 4, 5, 6, 7]);
-            let da = loop { let d = if key == 4 { 0x6a + rng.below(4) as i64 } else { rng.below(256) as i64 }; if !used.contains(&d) || key == 0 { break d; } if used.len() > 3 && key == 4 { break -1; } };
+            // one entry in four shares its unit address with an earlier entry of ANOTHER (vendor, product) pair - known or
+            // unknown: every known entry is driven all the same
+            let share: Vec<i64> = ds.iter().filter(|d| d[0] != key && (key != 4 || (0x6a..=0x6d).contains(&d[1]))).map(|d| d[1]).collect();
+            let da = if key != 0 && !share.is_empty() && rng.chance(1, 4) { *rng.pick(&share) } else {
+                loop { let d = if key == 4 { 0x6a + rng.below(4) as i64 } else { rng.below(256) as i64 }; if !used.contains(&d) || key == 0 { break d; } if used.len() > 3 && key == 4 { break -1; } } };
             if da < 0 { continue; }
             used.push(da);
             let has_sa = rng.chance(1, 3) as i64;
